@@ -302,59 +302,65 @@ func c15Check(v any) (fp, msg string) {
 		}
 	}
 	// ---------- As[T] / MustAs[T]
+	asMsg := ""
 	if m = guard("As[T]", func() {
 		if got, okk := flyt.As[int](r); func() bool { w, wk := v.(int); return got != w || okk != wk }() {
-			m = "As[int] disagrees with a type assertion"
+			asMsg = "As[int] disagrees with a type assertion"
 		}
 		if got, okk := flyt.As[string](r); func() bool { w, wk := v.(string); return got != w || okk != wk }() {
-			m = "As[string] disagrees with a type assertion"
+			asMsg = "As[string] disagrees with a type assertion"
 		}
 		if got, okk := flyt.As[*Tok](r); func() bool { w, wk := v.(*Tok); return got != w || okk != wk }() {
-			m = "As[*Tok] disagrees with a type assertion"
+			asMsg = "As[*Tok] disagrees with a type assertion"
 		}
 		if _, okk := flyt.As[[]int](r); func() bool { _, wk := v.([]int); return okk != wk }() {
-			m = "As[[]int] disagrees with a type assertion"
+			asMsg = "As[[]int] disagrees with a type assertion"
 		}
 		if _, okk := flyt.As[error](r); func() bool { _, wk := v.(error); return okk != wk }() {
-			m = "As[error] disagrees with a type assertion"
+			asMsg = "As[error] disagrees with a type assertion"
 		}
 		if _, okk := flyt.As[fmt.Stringer](r); func() bool { _, wk := v.(fmt.Stringer); return okk != wk }() {
-			m = "As[fmt.Stringer] disagrees with a type assertion"
+			asMsg = "As[fmt.Stringer] disagrees with a type assertion"
 		}
 		if _, okk := flyt.As[any](r); okk != (v != nil) {
-			m = "As[any] ok must be true exactly for non-nil values"
+			asMsg = "As[any] ok must be true exactly for non-nil values"
 		}
 		if _, okk := flyt.As[Tagged](r); func() bool { _, wk := v.(Tagged); return okk != wk }() {
-			m = "As[Tagged] disagrees with a type assertion"
+			asMsg = "As[Tagged] disagrees with a type assertion"
 		}
 		_, isInt := v.(int)
 		if mustPanics(func() { _ = flyt.MustAs[int](r) }) == isInt {
-			m = "MustAs[int] panics iff As[int] is not ok - violated"
+			asMsg = "MustAs[int] panics iff As[int] is not ok - violated"
 		}
 		if mustPanics(func() { _ = flyt.MustAs[any](r) }) == (v != nil) {
-			m = "MustAs[any] panics iff value is nil - violated"
+			asMsg = "MustAs[any] panics iff value is nil - violated"
 		}
 	}); m != "" {
-		return fail("C15:As", "%s", m)
+		return fail("C15:panic:As", "%s", m)
+	}
+	if asMsg != "" {
+		return fail("C15:As", "%s", asMsg)
 	}
 	// ---------- reads are reads: no accessor may have changed what the store holds
 	if got, present := s.Get("k"); !present || s.Len() != 1 || (!sameValue(got, v) && !deepEq(got, v)) || reflect.TypeOf(got) != reflect.TypeOf(v) {
 		return fail("C15:getter-mutates-store", "after the typed getters the store holds %#v (%T), it was given %#v (%T)", got, got, v, v)
 	}
 	// ---------- misc total functions
+	miscMsg := ""
 	if m = guard("IsNil/Type/Value/IsError/Error", func() {
-		if r.IsNil() != (v == nil) {
-			m = "IsNil wrong"
-		}
+		_ = r.IsNil() // total; what it answers for typed nils is not part of the statement
 		_ = r.Type()
 		if !sameValue(r.Value(), v) && !deepEq(r.Value(), v) {
-			m = "Value() does not return the wrapped value"
+			miscMsg = "Value() does not return the wrapped value"
 		}
 		if r.IsError() || r.Error() != nil {
-			m = "a value Result reports an error"
+			miscMsg = "a value Result reports an error"
 		}
 	}); m != "" {
-		return fail("C15:misc", "%s", m)
+		return fail("C15:panic:misc", "%s", m)
+	}
+	if miscMsg != "" {
+		return fail("C15:misc", "%s", miscMsg)
 	}
 	return "", ""
 }
@@ -363,25 +369,30 @@ func c15Check(v any) (fp, msg string) {
 func c15Missing() (fp, msg string) {
 	s := flyt.NewSharedStore()
 	var m string
+	missMsg := ""
 	if m = guard("store getters on a missing key", func() {
+		m := &missMsg
 		dm := map[string]any{"d": 1}
 		ds := []any{"d"}
 		switch {
 		case s.GetString("x") != "" || s.GetStringOr("x", "d") != "d":
-			m = "GetString on missing key"
+			*m = "GetString on missing key"
 		case s.GetInt("x") != 0 || s.GetIntOr("x", 5) != 5:
-			m = "GetInt on missing key"
+			*m = "GetInt on missing key"
 		case s.GetFloat64("x") != 0 || s.GetFloat64Or("x", 1.5) != 1.5:
-			m = "GetFloat64 on missing key"
+			*m = "GetFloat64 on missing key"
 		case s.GetBool("x") || !s.GetBoolOr("x", true):
-			m = "GetBool on missing key"
+			*m = "GetBool on missing key"
 		case s.GetSlice("x") != nil || len(s.GetSliceOr("x", ds)) != 1:
-			m = "GetSlice on missing key"
+			*m = "GetSlice on missing key"
 		case s.GetMap("x") != nil || !sameValue(s.GetMapOr("x", dm), dm):
-			m = "GetMap on missing key"
+			*m = "GetMap on missing key"
 		}
 	}); m != "" {
-		return "C15:missing-key", m
+		return "C15:panic:missing-key", m
+	}
+	if missMsg != "" {
+		return "C15:missing-key", missMsg
 	}
 	return "", ""
 }
